@@ -251,6 +251,39 @@ elab "itemsUnify" : tactic => withMainContext do
         return
   throwError "itemsUnify: nothing to unify"
 
+/-- two `min` expressions of the goal that `omega` proves equal are made the same term (`a.min(b).min(c)`
+against `c.min(b).min(a)`); otherwise what is computed from them — a pointer advanced by that amount — would be
+treated as unrelated on the two sides -/
+elab "minUnify" : tactic => withMainContext do
+  let g ← getMainGoal
+  let t ← instantiateMVars (← g.getType)
+  let found ← IO.mkRef (#[] : Array Expr)
+  t.forEach fun e => do
+    if e.isAppOfArity ``Min.min 4 && !e.hasLooseBVars then
+      found.modify fun acc => if acc.contains e then acc else acc.push e
+  let terms ← found.get
+  let natT := mkConst ``Nat
+  for i in [0:terms.size] do
+    for j in [i+1:terms.size] do
+      let a := terms[i]!
+      let b := terms[j]!
+      if a == b then continue
+      if !(← isDefEq (← inferType a) natT) then continue
+      -- the larger term is rewritten into the other one only if it does not contain it
+      if (b.find? (· == a)).isSome || (a.find? (· == b)).isSome then continue
+      let eqT ← mkEq b a
+      let m ← mkFreshExprMVar eqT
+      let ok ← try
+          let gs ← evalTacticAt (← `(tactic| omega)) m.mvarId!
+          pure gs.isEmpty
+        catch _ => pure false
+      if ok then
+        let r ← g.rewrite (← g.getType) m
+        let g' ← g.replaceTargetEq r.eNew r.eqProof
+        replaceMainGoal (g' :: r.mvarIds)
+        return
+  throwError "minUnify: nothing to unify"
+
 end tactics
 
 /-- evaluate both sides on an arbitrary state down to the primitive steps, then compare case by case -/
@@ -268,7 +301,7 @@ macro_rules
        pure_bind_run, raise_bind, ite_bind, ite_run, dassert_run, getBuf_run, setBuf_run, pure_run, raise_run,
        checkIdx_bind, checkIdx_run', readInit_bind, readInit_run', writeCell_bind, writeCell_run',
        decide_eq_true_eq, Nat.not_lt, Nat.not_le, range'_zero_len, dropInPlace_nil])
-     <;> (repeat' (first | rfl | (dsimp only; done) | ifsplit1 | esplit1 | (simp only [bind_assoc_run, ite_bind, ite_run, raise_bind, pure_bind_run, pure_run, raise_run, dassert_bind, dassert_run, getBuf_bind, getBuf_run, setBuf_bind, setBuf_run, liftE_bind, liftE_run]) | split)) <;> (try subst_vars) <;> (try simp_all) <;> (try omega)))
+     <;> (repeat' (first | rfl | (dsimp only; done) | minUnify | ifsplit1 | esplit1 | (simp only [bind_assoc_run, ite_bind, ite_run, raise_bind, pure_bind_run, pure_run, raise_run, dassert_bind, dassert_run, getBuf_bind, getBuf_run, setBuf_bind, setBuf_run, liftE_bind, liftE_run]) | split)) <;> (try subst_vars) <;> (try simp_all) <;> (try omega)))
 
 
 /-- the same with Lean's own `split` only -/
